@@ -7,28 +7,31 @@ SPEC = {
         "C01_mask_id", "C01_fixed_witnesses_blocked", "C01_sound_refuted_null_tag_text", "C01_sound_refuted_group_labels_alias",
         "C01_sound_refuted_merge_not_alias", "C01_sound_refuted_tag_kind", "C01_nonvacuous", "C01_nonvacuous_alias"]},
     "harness_args": lambda tier: (["C01", "--n", 300, "--cat", 40, "--stress", 4] if tier == "quick"
-                                  else ["C01", "--n", 15000, "--cat", -1, "--stress", 40]),
+                                  else ["C01", "--n", 8000, "--cat", -1, "--stress", 40]),
     "search_args": lambda tier: ["C01", "--n", 3000, "--cat", -1, "--stress", 16],
     "level": "proof",
     "trusted_base": [
         "Coq 8.16.1 kernel + VM; no axioms (Print Assumptions: closed under the global context)",
-        "hand-written Gallina models over the node forest yaml.v3 returned: pint's strict parser (Model/Parser.v), readRules + the "
-        "Bug/Fatal checks C01 relies on (Model/Routing.v: yaml/parse, promql/syntax, alerts/for invalid duration, alerts/template syntax), "
-        "and Prometheus' loader (Model/PromLoader.v: yaml.v3 struct decoding of RuleGroups with KnownFields, duplicate keys, merge keys, "
-        "aliases, null handling, + rulefmt Validate)",
+        "hand-written Gallina models over the node forest yaml.v3 returned: pint's strict parser (Model/Parser.v, as of /repo HEAD incl. "
+        "d65cbbf, cc77cdd, a6b0afc, 3dfcdb6), readRules + the Bug/Fatal checks C01 relies on (Model/Routing.v: yaml/parse, promql/syntax, "
+        "alerts/for invalid duration, alerts/template syntax), Prometheus' loader (Model/PromLoader.v: yaml.v3 struct decoding of RuleGroups "
+        "with KnownFields, duplicate keys, merge keys, aliases, faithful null handling incl. explicit !!null tags, + rulefmt Validate) and "
+        "the masking reader (Model/Reader.v, tied by C10)",
         "tie, both sides, every run: (i) strict_blocks vs the real in-process strict pipeline (modelled reporters), (ii) prom_accepts vs the "
-        "real rulefmt.Parse(content,false), on the serialised real forest with per-scalar oracle bits obtained from the real library "
-        "functions (ParseExpr, ParseDuration, IsValidMetricName, LabelName/LabelValue.IsValid, template ParseTest, pint's checkTemplateSyntax, "
-        "yaml.Node.Decode into string/int); (iii) the oracle hypotheses H_tmpl and H_empty are re-checked on every case",
+        "real rulefmt.Parse(content,false), (iii) the real ContentReader is the identity on the case's bytes, on the serialised real forest "
+        "with per-scalar oracle bits obtained from the real library functions (ParseExpr, ParseDuration, IsValidMetricName, LabelName/"
+        "LabelValue.IsValid, template ParseTest, pint's checkTemplateSyntax, yaml.Node.Decode into string/int/interface{}); (iv) the oracle "
+        "hypotheses H_tmpl and H_empty are re-checked on every case",
         "oracle hypotheses of the theorem: H_tmpl (pint template check at least as strict as Prometheus'), H_str (a non-null scalar decodes "
-        "into a string), H_int (an !!int scalar decodes into an int = guard of known finding C01-limit-not-int), H_empty (\"\" is no label "
-        "name, is a label value, is a valid template)",
-        "assumed, not modelled: the second, position-only decode of rulefmt.Parse fails only where the first one does; the masking reader is "
-        "the identity on files without `# pint` comments (files with such comments are skipped); only the Prometheus schema (not Thanos)",
+        "into a string), H_null (a null-tagged scalar spelling a null resolves to null), H_empty (\"\" is no label name, is a label value, "
+        "is a valid template); the same oracle int_ok is used by pint's limit check and by the loader",
+        "assumed, not modelled: the second, position-only decode of rulefmt.Parse fails only where the first one does; files with pint control "
+        "comments are skipped (mask_id covers the others); only the Prometheus schema (not Thanos)",
     ],
     "assumptions": [
-        "theorem restricted to the documented fragment guards_doc (no aliases, no merge keys, natural tags, no null record/alert/expr, named "
-        "groups); outside it the property is only searched by the implementation-level oracle (pint verdict vs rulefmt.Parse directly)",
+        "theorem restricted to the documented fragment guards_doc (no merge keys, natural tags, null-tagged scalars spell a null; aliases only as "
+        "values of rule keys and inside rule labels/annotations); outside it the property is only searched by the implementation-level "
+        "oracle (pint verdict vs rulefmt.Parse directly)",
         "strict_blocks models a subset of pint's Bug/Fatal problems; soundness direction: real pint passes => model does not block",
     ],
 }
@@ -38,18 +41,23 @@ def run(ctx):
     return pv.standard(ctx, SPEC)
 
 MANIFEST = {
-    "text": "Theorem (Coq, no axioms, all oracles as premises): for every document stream inside the documented fragment (no aliases/merge "
-            "keys/explicit collection tags, non-null record/alert/expr, named groups), if the model of pint's strict pipeline reports no "
-            "Bug/Fatal (yaml/parse, promql/syntax, alerts/for, alerts/template syntax) then the model of Prometheus' loader (yaml.v3 struct "
-            "decoding with KnownFields + rulefmt Validate) accepts the same node forest; plus the rule-level core on its own. The unguarded "
-            "statement is machine-refuted by five witnesses that the real pint passes and the real rulefmt.Parse refuses (null record/alert/"
-            "expr, group without name and rules, limit not decodable into int, `<<` merge of a non-alias, explicit tag contradicting the kind): "
-            "registered known findings with class predicates, three with tested candidate patches. Tie: both models are compared on every "
-            "case with the real pipeline and the real rulefmt.Parse on the real yaml.v3 forest; the property itself is searched directly "
-            "(pint verdict vs rulefmt.Parse) on generated documents where every field is independently valid/invalid/mistyped/duplicated/"
-            "missing/null/aliased/merged, plus byte/line mutations and hand-picked decoder corner cases.",
-    "note": "Coq 8.16.1 kernel+VM, no axioms; both models hand-written and validated by differential execution; theorem holds on the stated "
-            "fragment under named oracle hypotheses; five open known findings (pint passes, Prometheus refuses).",
-    "technique": "Coq theorem relating two Gallina models (pint strict pipeline, Prometheus loader) over a shared node forest + two-sided "
-                 "differential correspondence + direct pint-vs-rulefmt.Parse oracle",
+    "text": "Theorem (Coq, no axioms, all oracles as premises): for every document stream inside the documented fragment (no merge keys / "
+            "explicit collection tags; yaml aliases allowed as values of rule keys and of rule labels/annotations), if the model of pint's "
+            "strict pipeline reports no Bug/Fatal (yaml/parse, promql/syntax, alerts/for, alerts/template syntax) then the model of "
+            "Prometheus' loader (yaml.v3 struct decoding with KnownFields + rulefmt Validate) accepts the same node forest; the rule-level "
+            "core on its own; the alias-free fragment is an instance; the masking reader is the identity on files without pint control "
+            "comments (mask_id), so both sides decode the same bytes. The guards for null record/alert/expr, nameless groups and non-int "
+            "limits are gone (repaired in pint: d65cbbf, cc77cdd, a6b0afc) and their former witnesses are machine-checked to be blocked now. "
+            "The unguarded statement is machine-refuted by four witnesses that the real pint passes and the real rulefmt.Parse refuses "
+            "(`<<` merge of a non-alias, explicit tag contradicting the kind, scalar tagged !!null with text, group `labels: *alias`): "
+            "registered known findings with class predicates, the last two found this round with tested candidate patches. Only TESTED, not "
+            "proved: that the models equal the implementations — both verdicts and the reader identity are compared on every case with the "
+            "real pipeline and the real rulefmt.Parse on the real yaml.v3 forest; the property itself is searched directly (pint verdict vs "
+            "rulefmt.Parse) on structure-aware random documents, a systematic single-deviation catalogue (every slot x YAML value shape, "
+            "key dropped/duplicated/misplaced, every value as an alias of every kind of anchor, under both name validation schemes), and "
+            "reader-stress files crossing 4 KiB / 64 KiB line and buffer sizes with a valid or defective tail.",
+    "note": "Coq 8.16.1 kernel+VM, no axioms; models hand-written and validated by differential execution; theorem holds on the stated "
+            "fragment under named oracle hypotheses; four open known findings (pint passes, Prometheus refuses).",
+    "technique": "Coq theorem relating two Gallina models (pint strict pipeline, Prometheus loader) over a shared node forest + reader "
+                 "identity lemma + three-way differential correspondence + direct pint-vs-rulefmt.Parse oracle",
 }
